@@ -105,7 +105,7 @@ def gen_cases(chk):
                             continue  # chunksize is ignored for non-vectorised functions; keep k in {0,1}
                         cases.append({"kind": "bef", "n": n, "fvals": fvals, "fkind": fkind, "has_pool": has_pool,
                                       "vectorised": vect, "chunksize": k, "n_pool": p,
-                                      "wrapper": rng.random() < 0.5})
+                                      "wrapper": rng.random() < 0.5, "noise": rng.choice([0, 0, 1, 2, 3])})
     # Model-level cases
     model_ns = [0, 1, 2, 5, 9] if chk.tier == "quick" else list(range(0, 25))
     for n in model_ns:
@@ -124,7 +124,7 @@ def gen_cases(chk):
                                           "pkind": rng.choice(["vec", "scalar", "arr1"]) if vm == "auto" else fkind,
                                           "ukind": rng.choice(["vec", "scalar", "arr1"]) if vm == "auto" else fkind,
                                           "pool": pool, "n_pool": rng.choice([1, 2, 3, 4]), "chunksize": k,
-                                          "vect_mode": vm, "unit": unit,
+                                          "vect_mode": vm, "unit": unit, "noise": rng.choice([0, 1, 2, 3, 4]),
                                           "parallelise_prior": rng.random() < 0.5})
     real = []
     for n in ([7] if chk.tier == "quick" else [0, 1, 7, 24]):
@@ -134,14 +134,14 @@ def gen_cases(chk):
                 for which in ("likelihood", "prior"):
                     real.append({"kind": "model", "which": which, "n": n, "fvals": fvals, "fkind": "vec",
                                  "pool": "real", "n_pool": p, "chunksize": k, "vect_mode": "auto", "unit": False,
-                                 "parallelise_prior": True})
+                                 "noise": 1 + (k + p) % 3, "parallelise_prior": True})
     return cases, real
 
 
 def as_nat_list(vals):
     out = []
     for v in vals:
-        if v != int(v) or v < 0:
+        if v is None or v != v or v in (float("inf"), float("-inf")) or v != int(v) or v < 0:
             return None
         out.append(int(v))
     return out
